@@ -17,18 +17,30 @@ RULE = ("generated journals (3-24 dated days, 9 accounts, CHF/USD with prices, 0
         "not, number of journal.Builder.Add calls (hook census), directives printed by `knut print`, and the begin/end/fail "
         "events of every cpr.Seq stage; the extracted trace_ok (and trace_complete on success) is evaluated per Seq "
         "invocation with items indexed by date order.  C19.race repeats runs with a -race binary; any DATA RACE report "
-        "fails.  Non-trivial: at least 2 stages x 3 days in the trace, or at least 3 files; distinct by input.")
+        "fails.  Every seventh case is an include GRAPH that is not a tree (diamond, a file included three times, three "
+        "routes to a file with an include of its own, mutual includes reachable over two routes, a longer cycle entered at "
+        "two points, a cycle below a diamond, random graphs of 3-6 files with one or two parents per file and sometimes an "
+        "include back; `./` prefixes and sub-directories in the include paths): kmodel runs the extracted transition "
+        "system of FromPath with ancestor chains on the graph under two canonical schedulers and evaluates the extracted "
+        "enumeration of simple paths; expected: a reachable cycle => exit 1, empty stdout, no hang; otherwise the number "
+        "of Builder.Add calls is the sum over the simple include paths from the root of the directives of the path's last "
+        "file (a file included from two places is loaded twice), also computed by depth-first search in the generator.  "
+        "Non-trivial: at least 2 stages x 3 days in the trace, or at least 3 files; distinct by input.")
 
 TRUSTED_BASE = [
     "Coq 8.16.1 kernel, vm_compute (Examples)",
-    "extraction (ExtrOcamlBasic only) + OCaml 4.13.1 + drv_c19.ml (trace parsing, date -> index by sorting)",
-    "harness c19.go (generator, file layout, census by regular expression on `knut print` output)",
+    "extraction (ExtrOcamlBasic only) + OCaml 4.13.1 + drv_c19.ml (trace parsing, date -> index by sorting; include graph -> "
+    "inc function, census = sum of per-file directive counts over the files the model loaded)",
+    "harness c19.go (generator, file layout, include graphs with their census by depth-first search, census by regular "
+    "expression on `knut print` output)",
     "the hooks hooks/0001-verif-hooks.patch (VerifEvent writes one line per event under a mutex: the file order is a linearisation)",
     "Go's channel/select/context semantics are as modelled in Model/Pipe.v; the Go race detector for memory-level races",
 ]
 ASSUMPTIONS = ["unbuffered channel send/receive is a rendezvous; select picks any ready case; context cancellation is observed by every select on ctx.Done()",
                "stage functions touch only their own processor state and the item they hold (checked only by the race detector)",
-               "include graphs are acyclic (a cyclic graph does not terminate: C19_loader_cycle_unbounded, finding F12)"]
+               "include graphs are finite (cyclic or not: C19_frompath_cycle_terminates); the loader models without the ancestor chain "
+               "(Model/PipeLoader.v, Model/PipeFromPath.v) assume an acyclic graph (C19_loader_cycle_unbounded, finding F12, describes "
+               "the pinned code)"]
 
 
 def _require_hooks():
@@ -77,9 +89,27 @@ def nontrivial(c):
     return nfiles >= 3 or (len(stages) >= 2 and len(days) >= 3)
 
 
+def _max_loads(graph):
+    """the largest number of include paths from the root (file 0) to one file of an acyclic include graph"""
+    inc = {}
+    for item in graph.split(","):
+        f, _, r = item.partition(">")
+        inc[int(f)] = [int(x) for x in r.split(".") if x]
+    count = {}
+
+    def walk(f, depth):
+        if depth > 50:
+            return
+        count[f] = count.get(f, 0) + 1
+        for g in inc.get(f, []):
+            walk(g, depth + 1)
+    walk(0, 0)
+    return max(count.values()) if count else 0
+
+
 def distribution(cases):
     d = {"kind": {}, "cmd": {}, "files": {}, "exit": {}, "events_total": 0, "max_stages": 0, "max_days": 0,
-         "race_runs": 0, "races": 0, "hangs": 0}
+         "race_runs": 0, "races": 0, "hangs": 0, "include_graphs": {"ok": 0, "cycle": 0, "max_loads_of_one_file": 0}}
     for c in cases:
         kv = dict(f.split("=", 1) for f in c.input.split(";files=")[0].split(";") if "=" in f)
         if c.op == "C19.race":
@@ -87,6 +117,11 @@ def distribution(cases):
             d["races"] += 1 if "race=1" in (c.observed or "") else 0
             continue
         d["kind"][kv.get("kind")] = d["kind"].get(kv.get("kind"), 0) + 1
+        if "graph" in kv:
+            g = d["include_graphs"]
+            g[kv.get("kind")] = g.get(kv.get("kind"), 0) + 1
+            if kv.get("kind") == "ok":
+                g["max_loads_of_one_file"] = max(g["max_loads_of_one_file"], _max_loads(kv["graph"]))
         d["cmd"][kv.get("cmd")] = d["cmd"].get(kv.get("cmd"), 0) + 1
         nf = str(c.input.split(";files=")[-1].count("|") // 2 + 1)
         d["files"][nf] = d["files"].get(nf, 0) + 1
@@ -121,12 +156,31 @@ LEVEL_TEXT = ("Theorems C19_ownership, C19_order, C19_no_loss_dup, C19_deadlock_
               "of a stage function that failed; any failure is reported), C19_frompath_nodrain_refuted (if FromStream returns "
               "at its first error a parser blocks in Push forever) and C19_frompath_builder_error_refuted (a failing "
               "Builder.Add would block the conversion tasks forever; unreachable today, findings/C19-builder-error-latent-hang.md).  "
+              "Model/PipeFromPathCycle.v is the same system on an arbitrary finite include graph, with parser tasks that carry "
+              "their ancestor chain as syntax.parseRec does (a task whose file is among its ancestors fails with `include "
+              "cycle`, which cancels the errgroup; no set of loaded files: a diamond spawns two tasks for the same file): "
+              "C19_frompath_cycle_terminates (the visits are exactly the include paths from the root whose proper prefix is "
+              "simple - simple paths and their one-edge cycle closings; every schedule makes at most 6|visits|+3 effective steps; "
+              "never more parser tasks than visits; no reachable state blocks and the workers return), "
+              "C19_frompath_cycle_is_error (a cycle reachable from the root: once the parser stage has returned the first "
+              "error of the outer pool is a genuine parser-stage error, FromPath never returns the builder, and every "
+              "reported cycle is the chain of a real include path from the root back into itself), "
+              "C19_frompath_diamond_loads_twice (an error-free return: no cycle is reachable and the files added to the builder "
+              "are, as a multiset, the last files of the simple paths from the root; _ranked: on an acyclic graph that is the "
+              "include tree, i.e. the unique visit list of C05_layout, and nothing fails if no stage function does) and "
+              "C19_frompath_load_once_refuted (with the global load-once set of seeded change C06c two schedules of one cyclic "
+              "graph return `every file once` and `include cycle`).  "
               "The tie to the binary: the extracted trace_ok accepts the hook trace of every Seq invocation of every run, "
               "successful runs are complete (every stage saw every day) and load exactly the generated directives, failing "
-              "runs exit non-zero with empty stdout within the timeout, and the race detector reports nothing.")
+              "runs exit non-zero with empty stdout within the timeout, include graphs that are not trees load every file once "
+              "per simple path (census = the extracted model's) or fail on a reachable cycle, and the race detector reports nothing.")
 LEVEL_NOTE = ("Partial: data races on Go memory are only searched for (race detector, sampled schedules); Go channel, select and "
               "context semantics are assumed as modelled (unbuffered send/receive is a rendezvous: the back-pressure clause "
               "of trace_ok rests on it); C19_frompath_terminates assumes that Builder.Add does not fail (true of the code: "
               "Add rejects only directive types that ParseDirective never produces) - the refuted variant shows the "
-              "assumption is needed; the include-cycle check of parseRec is not in the loader models (they assume an acyclic "
-              "include graph).  Trusted: Coq kernel, extraction, drv_c19.ml, harness c19.go, the add-only hooks.")
+              "assumption is needed, and C19_frompath_cycle_terminates / _cycle_is_error make the same assumption for "
+              "deadlock freedom and for `the first error is the parser stage's`; the step bound holds for every oracle.  In "
+              "the graph model file identity is a number: that filepath.Clean/path.Join map two spellings of a path to one key "
+              "is sampled by the generator (`./` prefixes, sub-directories) and modelled in Model/Loader.v (C14), not here.  "
+              "Which of several errors FromPath returns when a cycle and other failures coincide is left open (some genuine "
+              "parser-stage error).  Trusted: Coq kernel, extraction, drv_c19.ml, harness c19.go, the add-only hooks.")
